@@ -185,21 +185,23 @@ def signed_velocity_jacobian(ctx, rule="C05.R14"):
 
 
 def time_derivative_rows(ctx, rule="C05.R15"):
-    """g_ddot is d/dt g_dot (K19).  Both per-axis rows of the projected joints are brought to the bracket normal form - integer polynomials in
-    dot(a, b) and det[a, b, c] of the atomic vectors, nested cross products removed by BAC-CAB / Lagrange - and the time derivative of the
-    g_dot row is formed by the product rule with the kinematic table  r_OJk -> v_Jk,  v_Jk -> a_Jk,  Omegak -> Psik,  A_IJk[:, x] ->
-    Omegak x A_IJk[:, x] (the axis is fixed to body k).  The code's g_ddot row must be the same function of the vectors; equality is decided
-    modulo the syzygies by exact evaluation of the difference at integer points, so a rewrite with any vector identity is accepted and a
-    wrong sign / factor of the centripetal, Coriolis or Euler term is a nonzero polynomial with a witness point."""
+    """g_dot is d/dt g and g_ddot is d/dt g_dot (K19).  The rows of both routines are brought to the bracket normal form - polynomials with exact
+    coefficients in dot(a, b) and det[a, b, c] of the atomic vectors, nested cross products removed by BAC-CAB / Lagrange - and the time
+    derivative of the primal row is formed by the product rule with the kinematic table  r_OJk -> v_Jk,  v_Jk -> a_Jk,  Omegak -> Psik,
+    A_IJk[:, x] -> Omegak x A_IJk[:, x] (the axis is fixed to body k); constant data (self.dist) are scalar symbols.  The code's derivative
+    row must be the same function of the vectors; equality is decided modulo the syzygies by exact evaluation of the difference at integer
+    points, so a rewrite with any vector identity is accepted and a wrong sign / factor of a centripetal, Coriolis or Euler term is a
+    nonzero polynomial with a witness point.  Vector-valued rows (g[:3] = r_OJ2 - r_OJ1) are tested against a constant dummy vector."""
     from .. import brackets as B
     rep = ctx.rep
-    fg = ctx.repo.get(BASE, "ProjectedPositionOrientationBase.g_dot")
-    fa = ctx.repo.get(BASE, "ProjectedPositionOrientationBase.g_ddot")
     VEC = {"r_OJ1", "r_OJ2", "v_J1", "v_J2", "a_J1", "a_J2", "Omega1", "Omega2", "Psi1", "Psi2"}
+    SYM = {"dist"}
 
     def atom(e):
         if isinstance(e, ast.Call) and isinstance(e.func, ast.Attribute) and isinstance(e.func.value, ast.Name) and e.func.value.id == "self" and e.func.attr in VEC:
             return e.func.attr
+        if isinstance(e, ast.Attribute) and isinstance(e.value, ast.Name) and e.value.id == "self" and e.attr in SYM:
+            return ("sym", e.attr)
         if isinstance(e, ast.Subscript) and isinstance(e.slice, ast.Tuple) and len(e.slice.elts) == 2 and isinstance(e.slice.elts[0], ast.Slice) \
                 and e.slice.elts[0].lower is None and e.slice.elts[0].upper is None:
             v = e.value
@@ -218,42 +220,59 @@ def time_derivative_rows(ctx, rule="C05.R15"):
                 t[a] = B.vcross(B.vatom("Omega2"), B.vatom(a))
         return t
 
-    def row_stores(fn, name):
-        out = []
+    def rows(fn, name):
+        """{index text: (stmt, expr)}: subscript stores into the result buffer, or the returned expression itself"""
+        out = {}
         for st in ast.walk(fn):
             if isinstance(st, ast.Assign) and len(st.targets) == 1 and isinstance(st.targets[0], ast.Subscript) and norm_src(st.targets[0].value) == name:
-                out.append(st)
+                out[re.sub(r"\s", "", norm_src(st.targets[0].slice))] = (st, st.value)
+            elif isinstance(st, ast.Return) and st.value is not None and not (isinstance(st.value, ast.Name) and st.value.id == name):
+                out["<return>"] = (st, st.value)
         return out
-    C = f"{BASE}:ProjectedPositionOrientationBase.g_ddot"
-    by_idx = {re.sub(r"\s", "", norm_src(st.targets[0].slice)): st for st in row_stores(fg, "g_dot")}
-    n = 0
-    for st in row_stores(fa, "g_ddot"):
-        idx = re.sub(r"\s", "", norm_src(st.targets[0].slice))
-        sg = by_idx.get(idx)
-        if sg is None:
-            rep.ok(rule, C, f"row g_ddot[{idx}]: no g_dot row with the same index expression (no verdict)", verdict="unknown", trivial=True)
+
+    def scalar(fn, e):
+        v = B.Bracketer(fn, atom).ev(e)
+        if v is None:
+            return None
+        if v[0] == "v":
+            return B.sdot(B.vatom("_c"), v[1])
+        return v[1] if v[0] == "s" else None
+    total = 0
+    for rel, cname, prim, der in ((BASE, "ProjectedPositionOrientationBase", "g", "g_dot"), (BASE, "ProjectedPositionOrientationBase", "g_dot", "g_ddot"),
+                                  (BASE, "PositionOrientationBase", "g", "g_dot"), (BASE, "PositionOrientationBase", "g_dot", "g_ddot"),
+                                  ("cardillo/constraints/fixed_distance.py", "FixedDistance", "g", "g_dot"), ("cardillo/constraints/fixed_distance.py", "FixedDistance", "g_dot", "g_ddot")):
+        try:
+            fp, fd = ctx.repo.get(rel, f"{cname}.{prim}"), ctx.repo.get(rel, f"{cname}.{der}")
+        except Exception:
+            rep.ok(rule, f"{rel}:{cname}.{der}", "routine not found (no verdict)", verdict="unknown", trivial=True)
             continue
-        vg, va = B.Bracketer(fg, atom).ev(sg.value), B.Bracketer(fa, atom).ev(st.value)
-        if vg is None or va is None or vg[0] != "s" or va[0] != "s":
-            rep.ok(rule, C, f"row g_ddot[{idx}]: not a polynomial in dot / cross products of the kinematic vectors (no verdict)", verdict="unknown", trivial=True)
-            continue
-        want = B.ddt(vg[1], table(vg[1]))
-        same, pt = B.same_function(want, va[1])
-        if same:
-            n += 1
-            rep.ok(rule, C, f"row g_ddot[{idx}] is the time derivative of g_dot[{idx}] ({len(want)} bracket monomials)")
-        else:
-            D = B.sadd(va[1], want, -1)
-            rep.bad(rule, C, st, f"row g_ddot[{idx}] is not the time derivative of g_dot[{idx}]: g_ddot - d/dt g_dot = {B.show(D)[:260]} "
-                    f"(nonzero e.g. at {dict(list(pt.items())[:3])}...) - the acceleration-level constraint the solvers and the consistent initial accelerations use "
-                    "disagrees with the velocity-level one as soon as body 1 rotates", f"{BASE}:{st.lineno}")
-    if n < 2:
-        rep.ok(rule, C, f"only {n} rows decided", verdict="unknown", trivial=True)
+        C = f"{rel}:{cname}.{der}"
+        rp, rdv = rows(fp, prim), rows(fd, der)
+        for idx, (st, e) in sorted(rdv.items()):
+            if idx not in rp:
+                rep.ok(rule, C, f"row {der}[{idx}]: no {prim} row with the same index expression (no verdict)", verdict="unknown", trivial=True)
+                continue
+            sp, sd = scalar(fp, rp[idx][1]), scalar(fd, e)
+            if sp is None or sd is None:
+                rep.ok(rule, C, f"row {der}[{idx}]: not a polynomial in dot / cross products of the kinematic vectors (no verdict)", verdict="unknown", trivial=True)
+                continue
+            want = B.ddt(sp, table(sp))
+            same, pt = B.same_function(want, sd)
+            if same:
+                total += 1
+                rep.ok(rule, C, f"row {der}[{idx}] is the time derivative of {prim}[{idx}] ({len(want)} bracket monomials)")
+            else:
+                D = B.sadd(sd, want, -1)
+                rep.bad(rule, C, st, f"row {der}[{idx}] is not the time derivative of {prim}[{idx}]: {der} - d/dt {prim} = {B.show(D)[:260]} "
+                        f"(nonzero e.g. at {dict(list(pt.items())[:3])}...) - the constraint levels the solvers and the consistent initial conditions use disagree with each other "
+                        "as soon as the bodies move", f"{rel}:{st.lineno}")
+    if total < 6:
+        rep.ok(rule, BASE, f"only {total} rows decided", verdict="unknown", trivial=True)
 
 
 def run(ctx):
     rep = ctx.rep
-    rep.rule("C05.R15", "projected joints: every row of g_ddot is the time derivative of the same row of g_dot as a polynomial in dot / triple products of the kinematic vectors (K19 bracket normal form, exact coefficients, equality modulo vector identities)", 2)
+    rep.rule("C05.R15", "joint bases and FixedDistance: every row of g_dot is the time derivative of the same row of g, and of g_ddot of g_dot, as polynomials in dot / triple products of the kinematic vectors (K19 bracket normal form, exact coefficients, equality modulo vector identities)", 8)
     time_derivative_rows(ctx)
     rep.rule("C05.R12", "dependence monotonicity (K13) over every primal/derivative pair of K5: a stated derivative reads no datum its primal does not read", 15)
     from .. import depmono as _dm
@@ -493,4 +512,15 @@ MUTANTS += [
 NEUTRAL += [
     dict(id="c05-n-r15", canary=True, what="projected joints: g_ddot rewritten as e . a_rel with the correct relative acceleration (vector identities only)", file=BASE,
          old=_ROWS, new='            a_rel = (\n                a_J1J2\n                - cross3(Psi1, r_J1J2)\n                + cross3(Omega1, cross3(Omega1, r_J1J2))\n                - 2 * cross3(Omega1, v_J1J2)\n            )\n            for i, ax in enumerate(self.constrained_axes_displacement):\n                g_ddot[i] = A_IJ1[:, ax] @ a_rel\n'),
+]
+
+MUTANTS += [
+    dict(id="c05-r15-fd", what="FixedDistance.g_ddot loses the factor 2 of the velocity term", file='cardillo/constraints/fixed_distance.py',
+         old="        return 2 * v_J1J2 @ v_J1J2 + 2 * r_J1J2 @ a_J1J2\n", new="        return v_J1J2 @ v_J1J2 + 2 * r_J1J2 @ a_J1J2\n", expect="C05.R15"),
+    dict(id="c05-r15-gdot", what="projected joints: g_dot's moment-arm term written with the operands of the cross product swapped", file=BASE,
+         old="                g_dot[i] = A_IJ1[:, ax] @ v_J1J2 + cross3(A_IJ1[:, ax], r_J1J2) @ Omega1\n", new="                g_dot[i] = A_IJ1[:, ax] @ v_J1J2 + cross3(r_J1J2, A_IJ1[:, ax]) @ Omega1\n", expect="C05.R15"),
+]
+NEUTRAL += [
+    dict(id="c05-n-r15b", what="FixedDistance.g_ddot with the common factor 2 pulled out", file='cardillo/constraints/fixed_distance.py',
+         old="        return 2 * v_J1J2 @ v_J1J2 + 2 * r_J1J2 @ a_J1J2\n", new="        return 2 * (v_J1J2 @ v_J1J2 + r_J1J2 @ a_J1J2)\n"),
 ]
